@@ -288,6 +288,8 @@ class TypeInfer:
                         bind_target(tgt, t)
                 elif isinstance(n, ast.AnnAssign) and n.value is not None:
                     bind_target(n.target, self.annotation_type(n.annotation, fn.module) or self.expr_type(n.value, fn, env))
+                elif isinstance(n, ast.MatchAs) and n.name:
+                    env.setdefault(n.name, None)        # a capture pattern binds a local
                 elif isinstance(n, ast.NamedExpr) and isinstance(n.target, ast.Name):
                     # (name := value) binds a local of the enclosing function
                     t_ = self.expr_type(n.value, fn, env)
